@@ -106,15 +106,32 @@ func c20SetBitsExp(c *hx.Ctx, r *hx.RNG) {
 		p = int64(r.Range(1, 19*maxI(n, 1)))
 	}
 	mode := r.Mode()
+	z := newRecv(p, mode)
+	own := p > 0 && n > 0 && r.Chance(30)
+	if own {
+		// the documented idiom: the receiver's own mantissa, obtained from BitsExp and edited in place
+		seed := make([]decimal.Word, n)
+		for i := range seed {
+			seed[i] = genWord(r)
+		}
+		seed[n-1] = decimal.Word(wb/10 + r.U64()%(wb-wb/10))
+		z.SetBitsExp(seed, int64(r.Range(-50, 50)))
+		m, _ := z.BitsExp()
+		if len(m) == 0 {
+			own = false
+		} else {
+			copy(m, w[n-len(m):])
+			w, n = m, len(m)
+			shape += "/own-slice"
+		}
+	} else if p > 0 && r.Chance(30) { // the receiver held something else before (a precision-0 receiver cannot hold a finite value)
+		z.SetInt64(-987654321)
+	}
 	coef := wordsToBig(w)
-	what := fmt.Sprintf("SetBitsExp(%v, %d) prec=%d mode=%s", w, e, p, oracle.ModeNames[mode])
+	what := fmt.Sprintf("SetBitsExp(%v, %d) prec=%d mode=%s own=%v", w, e, p, oracle.ModeNames[mode], own)
 	c.Note(what)
 	if c.Verbose {
 		fmt.Println("case:", what)
-	}
-	z := newRecv(p, mode)
-	if p > 0 && r.Chance(30) { // the receiver held something else before (a precision-0 receiver cannot hold a finite value)
-		z.SetInt64(-987654321)
 	}
 	win := cloneW(w)
 	pi := hx.Try(func() { z.SetBitsExp(w, e) })
@@ -151,6 +168,11 @@ func c20SetBitsExp(c *hx.Ctx, r *hx.RNG) {
 		ex := o.Ex.(oracle.ExDec)
 		if mp := (oracle.Val{Form: oracle.Finite, Coef: ex.Coef}).MinPrec(); mp > pe && got.V.Form == oracle.Finite {
 			c.Violate("wrong-value", fmt.Sprintf("%s: precision-0 receiver got precision %d, the slice has %d significant digits (value rounded)", what, pe, mp), "")
+			return
+		}
+		// SetBitsExp normalizes its argument: leading zero words must not influence the precision either
+		if ref := setBitsExpRefPrec(win); uint(pe) != ref {
+			c.Violate("wrong-value", fmt.Sprintf("%s: precision-0 receiver got precision %d, the same mantissa without its leading zero words gives %d", what, pe, ref), "")
 			return
 		}
 	} else if int64(got.Prec) != p {
